@@ -35,7 +35,7 @@ public:
 
     void need(size_t n);
 
-// basic types, WARNING: length unchecked!
+// basic types; reading beyond the buffer throws parse_error
     uint8_t  u8();
     uint16_t u16();
     uint32_t u32();
